@@ -1,8 +1,13 @@
 package props
 
 import (
+	"sort"
+	"strings"
+
 	"golang.org/x/tools/go/ssa"
 	"golang.org/x/tools/go/ssa/ssautil"
+
+	"verif/internal/vc"
 )
 
 func allFuncs(prog *ssa.Program) map[*ssa.Function]bool { return ssautil.AllFunctions(prog) }
@@ -18,4 +23,53 @@ func fnPkgPath(fn *ssa.Function) string {
 		return fn.Object().Pkg().Path()
 	}
 	return ""
+}
+
+// contractClosure returns the functions with a (non-trusted) contract that are reachable through
+// static calls from the given roots, going through functions without a contract (those are inlined
+// into their callers by the generator). A function with a contract is verified modularly: its body
+// is only checked if it is a unit itself, so a no-panic sweep must contain all of them.
+func contractClosure(e *vc.Engine, roots []string) []string {
+	seen := map[*ssa.Function]bool{}
+	found := map[string]bool{}
+	var work []*ssa.Function
+	for _, r := range roots {
+		if fn := e.Funcs[r]; fn != nil {
+			work = append(work, fn)
+		}
+	}
+	for len(work) > 0 {
+		fn := work[len(work)-1]
+		work = work[:len(work)-1]
+		if seen[fn] {
+			continue
+		}
+		seen[fn] = true
+		for _, b := range fn.Blocks {
+			for _, in := range b.Instrs {
+				var callee *ssa.Function
+				switch x := in.(type) {
+				case ssa.CallInstruction:
+					callee = x.Common().StaticCallee()
+				}
+				if mc, ok := in.(*ssa.MakeClosure); ok {
+					callee, _ = mc.Fn.(*ssa.Function)
+				}
+				if callee == nil || len(callee.Blocks) == 0 || !strings.HasPrefix(fnPkgPath(callee), vc.RepoModule) {
+					continue
+				}
+				name := vc.ShortName(callee)
+				if ct := e.Specs.Contracts[name]; ct != nil && !ct.Trusted && callee.Parent() == nil {
+					found[name] = true
+				}
+				work = append(work, callee)
+			}
+		}
+	}
+	var out []string
+	for n := range found {
+		out = append(out, n)
+	}
+	sort.Strings(out)
+	return out
 }
